@@ -261,8 +261,30 @@ func cmdC14(args []string) error {
 		}
 		pos := int(cpRo)
 		crashes := 0
+		_ = pos
 		style := rng.Intn(4)
 		sizes := []int{1, 7, 4096, T, T + 1, W - 1, W, W + 1, 2 * W, 3*W + 5}
+		flushNow := func() error {
+			if err := ow.Flush(); err != nil {
+				return err
+			}
+			a := ovAct{Op: "flush", Ro: ow.ReadOffset(), Oo: ow.OverlayOffset()}
+			ops, _, end := parseOverlay(ov, int(a.Oo))
+			a.CpOps = len(ops)
+			for _, op := range ops {
+				a.CpLen += opLen(op)
+			}
+			a.Exact = end == int(a.Oo)
+			tr.Acts = append(tr.Acts, a)
+			cpRo, cpOo = a.Ro, a.Oo
+			return nil
+		}
+		// a save can be requested before anything was written (flush point 0)
+		if rng.Intn(3) == 0 {
+			if err := flushNow(); err != nil {
+				return err
+			}
+		}
 		for pos < len(new) && len(tr.Acts) < 300 {
 			var sz int
 			switch style {
@@ -285,18 +307,9 @@ func cmdC14(args []string) error {
 			pos += sz
 			tr.Acts = append(tr.Acts, ovAct{Op: "write", N: sz})
 			if rng.Intn(4) == 0 {
-				if err := ow.Flush(); err != nil {
+				if err := flushNow(); err != nil {
 					return err
 				}
-				a := ovAct{Op: "flush", Ro: ow.ReadOffset(), Oo: ow.OverlayOffset()}
-				ops, _, end := parseOverlay(ov, int(a.Oo))
-				a.CpOps = len(ops)
-				for _, op := range ops {
-					a.CpLen += opLen(op)
-				}
-				a.Exact = end == int(a.Oo)
-				tr.Acts = append(tr.Acts, a)
-				cpRo, cpOo = a.Ro, a.Oo
 			}
 			if crashes < 2 && rng.Intn(6) == 0 {
 				// crash: writes after the last checkpoint are wholly or partly on "disk"
@@ -315,6 +328,11 @@ func cmdC14(args []string) error {
 					return err
 				}
 				pos = int(cpRo)
+				if rng.Intn(4) == 0 { // and right after a resume
+					if err := flushNow(); err != nil {
+						return err
+					}
+				}
 			}
 		}
 		if pos < len(new) { // act budget exhausted: finish with one big write
